@@ -432,6 +432,10 @@ impl Session {
                 libmathcat::verif::enable_events(false);
                 res_ok(Value::Null)
             }
+            "rules_hit" => {
+                let hit: Vec<Value> = libmathcat::verif::drain_rules_hit().into_iter().map(Value::String).collect();
+                res_ok(Value::Array(hit))
+            }
             "drain" => {
                 let evs: Vec<Value> = libmathcat::verif::drain_events()
                     .iter()
